@@ -659,6 +659,9 @@ def run_wfqk(ctx, res=None):
         txt += text(c)
     model = split_cases(run_driver('wfqk', '\n'.join(txt) + '\n')) if cases else {}
     hist, nontriv = collections.Counter(), 0
+    # counted, and 0 by construction in this leg: with ONE timeout-driven source the arrival would have to be scheduled after the
+    # sender's timeout, i.e. from a put during that transmission - whose packet is then still waiting.  The main leg reaches it.
+    hist['arrivals to an empty scheduler in the instant the last transmission ended (before the loop booked the packet out)'] = 0
     dis, orc = res['disagreements'], res['oracle_failures']
     for c in cases:
         a, b = got[c['cid']], model.get(c['cid'])
